@@ -1,7 +1,7 @@
 (* Properties_C01.v -- C01: no write outside the declared destination.
    Only theorem statements, closed by [exact]; Print Assumptions under each. *)
 From Coq Require Import List ZArith Lia Bool.
-From SC Require Import Base Cfg Comb CombProofs ModStr ModMem ProofsStr ProofsMem PropDefs.
+From SC Require Import Base Cfg Comb CombProofs ModStr ModMem ModExt ProofsStr ProofsMem ProofsExt PropDefs.
 From SC.Gen Require Import Consts.
 Import ListNotations.
 Local Open Scope Z_scope.
@@ -112,6 +112,58 @@ Theorem C01_memzero32_s : forall c d len destbos, 0 <= len -> bos_ok (len * 4) d
   C01_holds (ext d (len * 4)) (memzero32_s c d len destbos).
 Proof. intros. apply C01_from_writes. exact (memzerow_s_writes c 4 d len destbos ltac:(lia) H H0). Qed.
 Print Assumptions C01_memzero32_s.
+
+(* ---- round 3: in-place string functions, field copies, memccpy_s, wide memory copies, pointer-returning copies ----
+   any object size the library is told (destbos) only needs to be positive: on the "dmax exceeds the object" exits
+   the clear is bounded by destbos < dmax *)
+Definition bos_pos (destbos : Z) : Prop := destbos = BOS_UNKNOWN \/ 1 <= destbos.
+Theorem C01_strtolowercase_s : forall c d dmax destbos, 0 <= dmax -> C01_holds (ext d dmax) (strtolowercase_s c d dmax destbos).
+Proof. intros. apply C01_from_writes. exact (strtolowercase_s_writes c d dmax destbos H). Qed.
+Print Assumptions C01_strtolowercase_s.
+Theorem C01_strtouppercase_s : forall c d dmax destbos, 0 <= dmax -> C01_holds (ext d dmax) (strtouppercase_s c d dmax destbos).
+Proof. intros. apply C01_from_writes. exact (strtouppercase_s_writes c d dmax destbos H). Qed.
+Print Assumptions C01_strtouppercase_s.
+Theorem C01_strset_s : forall c d dmax value destbos, 0 <= dmax -> C01_holds (ext d dmax) (strset_s c d dmax value destbos).
+Proof. intros. apply C01_from_writes. exact (strset_s_writes c d dmax value destbos H). Qed.
+Print Assumptions C01_strset_s.
+Theorem C01_strnset_s : forall c d dmax value n destbos, 0 <= dmax -> 0 <= n -> C01_holds (ext d dmax) (strnset_s c d dmax value n destbos).
+Proof. intros. apply C01_from_writes. exact (strnset_s_writes c d dmax value n destbos H H0). Qed.
+Print Assumptions C01_strnset_s.
+Theorem C01_strnterminate_s : forall c d dmax destbos, 0 <= dmax -> C01_holds (ext d dmax) (strnterminate_s c d dmax destbos).
+Proof. intros. apply C01_from_writes. exact (strnterminate_s_writes c d dmax destbos H). Qed.
+Print Assumptions C01_strnterminate_s.
+Theorem C01_strcpyfld_s : forall c d dmax s slen destbos, 0 <= dmax -> 0 <= slen -> bos_pos destbos ->
+  C01_holds (ext d dmax) (strcpyfld_s c d dmax s slen destbos).
+Proof. intros. apply C01_from_writes. exact (strcpyfld_s_writes c d dmax s slen destbos H H0 H1). Qed.
+Print Assumptions C01_strcpyfld_s.
+Theorem C01_strcpyfldin_s : forall c d dmax s slen destbos, 0 <= dmax -> bos_pos destbos ->
+  C01_holds (ext d dmax) (strcpyfldin_s c d dmax s slen destbos).
+Proof. intros. apply C01_from_writes. exact (strcpyfldin_s_writes c d dmax s slen destbos H H0). Qed.
+Print Assumptions C01_strcpyfldin_s.
+Theorem C01_strcpyfldout_s : forall c d dmax s slen destbos, 0 <= dmax -> bos_pos destbos ->
+  C01_holds (ext d dmax) (strcpyfldout_s c d dmax s slen destbos).
+Proof. intros. apply C01_from_writes. exact (strcpyfldout_s_writes c d dmax s slen destbos H H0). Qed.
+Print Assumptions C01_strcpyfldout_s.
+Theorem C01_memccpy_s : forall c d dmax s ch n destbos srcbos, 0 <= dmax -> C01_holds (ext d dmax) (memccpy_s c d dmax s ch n destbos srcbos).
+Proof. intros. apply C01_from_writes. exact (memccpy_s_writes c d dmax s ch n destbos srcbos H). Qed.
+Print Assumptions C01_memccpy_s.
+Theorem C01_wmemcpy_s : forall c d dlen s count destbos srcbos, wf_cfg c -> 0 <= dlen -> 0 <= count ->
+  C01_holds (ext d (dlen * wchar_w c)) (wmemcpy_s c d dlen s count destbos srcbos).
+Proof. intros. apply C01_from_writes. exact (wmem_copy_writes c true (rmax_mem c) d dlen s count destbos srcbos H H0 H1). Qed.
+Print Assumptions C01_wmemcpy_s.
+Theorem C01_wmemmove_s : forall c d dlen s count destbos srcbos, wf_cfg c -> 0 <= dlen -> 0 <= count ->
+  C01_holds (ext d (dlen * wchar_w c)) (wmemmove_s c d dlen s count destbos srcbos).
+Proof. intros. apply C01_from_writes. exact (wmem_copy_writes c false (rmax_mem c / wchar_w c) d dlen s count destbos srcbos H H0 H1). Qed.
+Print Assumptions C01_wmemmove_s.
+(* the pointer-returning copies store into dest[0..dmax) and the 4 bytes of *errp, nothing else *)
+Theorem C01_stpcpy_s : forall c d dmax s errp destbos srcbos, 0 <= dmax -> bos_pos destbos ->
+  C01_holds (stpP d dmax errp) (stpcpy_s c d dmax s errp destbos srcbos).
+Proof. intros. apply C01_from_writes. exact (stpcpy_s_writes c d dmax s errp destbos srcbos H H0). Qed.
+Print Assumptions C01_stpcpy_s.
+Theorem C01_stpncpy_s : forall c d dmax s slen errp destbos srcbos, 0 <= dmax -> bos_pos destbos -> bos_ok slen srcbos ->
+  C01_holds (stpP d dmax errp) (stpncpy_s c d dmax s slen errp destbos srcbos).
+Proof. intros. apply C01_from_writes. exact (stpncpy_s_writes c d dmax s slen errp destbos srcbos H H0 H1). Qed.
+Print Assumptions C01_stpncpy_s.
 
 (* the configuration of the working tree satisfies the side conditions (regenerated every run) *)
 Theorem C01_cfg_repo_wf : wf_cfg cfg_repo.
